@@ -1,4 +1,5 @@
 import json
+import os
 import tarfile
 import shutil
 import numpy as np
@@ -142,8 +143,15 @@ class DataDir(object):
         return self._delete_files(filenames=filenames)
 
     def _check_writeprotected(self, filename, accessmode):
-        if accessmode != 'r' and filename in self._protectedpaths:
-            raise OSError(f'Cannot modify protected file "{filename}"')
+        if accessmode != 'r':
+            # the same file can be spelled in many ways ('./x', 'x/',
+            # Path('x'), '../<dirname>/x', an absolute path), and everything
+            # inside a protected directory is protected too
+            base = os.path.abspath(self._path)
+            target = os.path.normpath(os.path.join(base, filename))
+            relparts = Path(os.path.relpath(target, base)).parts
+            if relparts and relparts[0] in self._protectedpaths:
+                raise OSError(f'Cannot modify protected file "{filename}"')
 
     # FIXME overwrite parameter?
     @contextmanager
